@@ -411,16 +411,21 @@ def print_parse_round_trip(ex):
     off = z3.BitVec('lm_off', 16)
     text = iso_datetime(f) + iso_offset(off)
     import os
-    pp = Ptr(None, z3.BitVec('lm_pp', 64))
-    # quick tier: the text is laid out 64 bytes after the pointer variable (the contracts only require the two not to
-    # overlap and mention no absolute address); thorough tier: fully symbolic placement
-    sp = z3.BitVec('lm_s', 64) if os.environ.get('VERIF_TIER') == 'thorough' else pp.off + 64
-    m2 = mem
-    for k, t in enumerate(text):
-        m2 = z3.Store(m2, sp + k, t)
-    # the pointer variable holds sp
-    for k in range(8):
-        m2 = z3.Store(m2, pp.off + k, z3.Extract(8 * k + 7, 8 * k, sp))
+    # quick tier: the pointer variable lies 64 bytes after the start of the text (the contracts only require the two not to
+    # overlap and mention no absolute address); thorough tier: fully symbolic placement.  The text address is the free variable
+    # and the pointer bytes are written first, so that reading the pointer back gives the variable itself and reading the text
+    # resolves syntactically (the other way round each lemma cost 20-40 s of array reasoning and flipped to unknown under load)
+    sp = z3.BitVec('lm_s', 64)
+    pp = Ptr(None, z3.BitVec('lm_pp', 64) if os.environ.get('VERIF_TIER') == 'thorough' else sp + 64)
+
+    def lay_out(chars):
+        m = mem
+        for k in range(8):                      # the pointer variable holds sp
+            m = z3.Store(m, pp.off + k, z3.Extract(8 * k + 7, 8 * k, sp))
+        for k, t in enumerate(chars):
+            m = z3.Store(m, sp + k, t)
+        return m
+    m2 = lay_out(text)
     r = z3.BitVec('lm_r', 64)
     mem3 = z3.Const('lm_mem3', ex.mem_sort)
     pre, lpost = instantiate(ex, 'ace_time::OffsetDateTime::forDateStringChainable(char const*&)', [pp], mem_old=m2, mem_new=mem3, result=r, labelled=True)
@@ -438,11 +443,7 @@ def print_parse_round_trip(ex):
                        cases=[('neg', off < 0), ('nonneg', off >= 0)], logic=None))
     # --- offset alone, all of +-99:59 ---
     text2 = iso_offset(off)
-    m4 = mem
-    for k, t in enumerate(text2):
-        m4 = z3.Store(m4, sp + k, t)
-    for k in range(8):
-        m4 = z3.Store(m4, pp.off + k, z3.Extract(8 * k + 7, 8 * k, sp))
+    m4 = lay_out(text2)
     r2 = z3.BitVec('lm_r2', 16)
     pre2, post2 = instantiate(ex, 'ace_time::TimeOffset::forOffsetStringChainable(char const*&)', [pp], mem_old=m4, mem_new=mem3, result=r2)
     sep2 = z3.Or(z3.ULE(pp.off + 8, sp), z3.ULE(sp + 6, pp.off))
@@ -453,11 +454,7 @@ def print_parse_round_trip(ex):
                        (iso_offset(off)[0] == ch('-')) == (off < 0)))
     # --- local date-time ---
     text3 = iso_datetime(f)
-    m5 = mem
-    for k, t in enumerate(text3):
-        m5 = z3.Store(m5, sp + k, t)
-    for k in range(8):
-        m5 = z3.Store(m5, pp.off + k, z3.Extract(8 * k + 7, 8 * k, sp))
+    m5 = lay_out(text3)
     r3 = z3.BitVec('lm_r3', 48)
     pre3, lpost3 = instantiate(ex, 'ace_time::LocalDateTime::forDateStringChainable(char const*&)', [pp], mem_old=m5, mem_new=mem3, result=r3, labelled=True)
     post3 = [e for _, e in lpost3]
